@@ -558,7 +558,8 @@ func (p Parameters) QiOverflowMargin(level int) int {
 	if len(p.qi) == 0 {
 		return -1
 	}
-	return int(math.Exp2(64) / float64(slices.Max(p.qi[:level+1])))
+	/* #nosec G115 -- the quotient is below 2^63 for every modulus > 2 */
+	return int(math.MaxUint64 / slices.Max(p.qi[:level+1])) // = floor(2^64/max) for an odd modulus; float64 rounds 2^60+k down to 2^60
 }
 
 // PiOverflowMargin returns floor(2^64 / max(Pi)), i.e. the number of times elements of Z_max{Pi} can
@@ -568,7 +569,8 @@ func (p Parameters) PiOverflowMargin(level int) int {
 	if len(p.pi) == 0 || level < 0 {
 		return -1
 	}
-	return int(math.Exp2(64) / float64(slices.Max(p.pi[:level+1])))
+	/* #nosec G115 -- the quotient is below 2^63 for every modulus > 2 */
+	return int(math.MaxUint64 / slices.Max(p.pi[:level+1]))
 }
 
 // GaloisElements takes a list of integers k and returns the list [GaloisGen^{k[i]} mod NthRoot, ...].
